@@ -292,6 +292,9 @@ impl Prop for C07 {
                             let (v, h) = self.sub_run(&data, case.mode, f, at, kind, once, os, &mut rep, false);
                             if os && matches!(kind, FaultKind::Err(_)) {
                                 rep.count("fault_delivered_as_raw_os_error", 1);
+                                if matches!(kind, FaultKind::Err(ErrKind::UnexpectedEof | ErrKind::Other | ErrKind::InvalidData)) {
+                                    rep.count("fault_delivered_as_wrapped_io_error", 1);
+                                }
                             }
                             agg.u64(h);
                             subs += 1;
@@ -350,7 +353,7 @@ impl Prop for C07 {
     }
 
     fn rule(&self) -> String {
-        "Each evaluation = one seeded well-formed message (1 in 12 carries one long value of 8193 / 12000 / 16385 / 40000 / 65535 bytes, with fault offsets placed inside it past the 8 KiB and 16 KiB marks) x one parser front end, swept: a single fault (stream cut = sticky EOF; or I/O error kind — once sticky and once transient, i.e. exactly one failing call with the stream carrying on behind it; delivered alternately as a synthetic io::Error and as a raw OS error (errno) — in {ConnectionReset, ConnectionAborted, TimedOut, BrokenPipe, UnexpectedEof, PermissionDenied, Other} + WouldBlock for blocking) at each chosen byte offset before the end-of-attributes tag (quick: ~34 offsets biased to token edges +-1; thorough: every offset), each under three fragmentations (whole, one byte per read so the fault lands inside a partially filled read_exact, seeded composition with EINTR / Pending). 'sub_runs' counts the individual fault placements. Oracle: result is Err; for an injected error, IoError with exactly the injected kind; never Ok, never a panic; executor invariants. distinct_nontrivial = distinct hashes of the whole sweep (source call sequences + outcome classes) over messages with >= 1 attribute."
+        "Each evaluation = one seeded well-formed message (1 in 12 carries one long value of 8193 / 12000 / 16385 / 40000 / 65535 bytes, with fault offsets placed inside it past the 8 KiB and 16 KiB marks) x one parser front end, swept: a single fault (stream cut = sticky EOF; or I/O error kind — once sticky and once transient, i.e. exactly one failing call with the stream carrying on behind it; delivered alternately as a synthetic io::Error and as a raw OS error (errno; kinds without an errno instead as a wrapped error whose payload is an io::Error of another kind) — in {ConnectionReset, ConnectionAborted, TimedOut, BrokenPipe, UnexpectedEof, PermissionDenied, Other} + WouldBlock for blocking) at each chosen byte offset before the end-of-attributes tag (quick: ~34 offsets biased to token edges +-1; thorough: every offset), each under three fragmentations (whole, one byte per read so the fault lands inside a partially filled read_exact, seeded composition with EINTR / Pending). 'sub_runs' counts the individual fault placements. Oracle: result is Err; for an injected error, IoError with exactly the injected kind; never Ok, never a panic; executor invariants. distinct_nontrivial = distinct hashes of the whole sweep (source call sequences + outcome classes) over messages with >= 1 attribute."
             .into()
     }
     fn assumptions(&self) -> Vec<String> {
